@@ -9,6 +9,7 @@ spec -> code          every crash point of a real 3-iteration run (SIGKILL befor
                       effect), restart with resume=True, bit-for-bit comparison with the uninterrupted run
 code -> spec          the recorded histories (uninterrupted, and killed + outcome of the resumed run) are validated by
                       ClVIResumeTrace.tla"""
+import json
 import os
 import random
 import re
@@ -75,6 +76,122 @@ def one_crash(base, name, gold, k, variant, env):
         return outcome, trace, info
     finally:
         shutil.rmtree(root, ignore_errors=True)
+
+
+SCFG = ('CONSTANTS NIter = 4\nFreshName = "%s"\nSchedName = "%s"\nLoadRule = "%s"\nChainRule = "%s"\nOtherProc = %s\nMaxCrashes = %d\n')
+
+
+def _read_streams(root):
+    p = os.path.join(root, "streams.ndjson")
+    if not os.path.exists(p):
+        return []
+    with open(p) as f:
+        return [json.loads(l) for l in f if l.strip()]
+
+
+def _merge(streams, events, ref, limit=None):
+    """stream events and marker replacements of one process in the order they happened (a stream logged at counter k precedes event k)"""
+    out = []
+    for e in events:
+        if limit is not None and e["k"] > limit:
+            break
+        for s in [x for x in streams if x["k"] == e["k"]]:
+            out.append(_stream_ev(s, ref))
+        if e["ev"] == "replace" and cls_of(e["path"]) == "marker":
+            out.append(dict(ev="marker", it=-1, state="", idx=-1, proc=""))
+    last = max([e["k"] for e in events], default=-1)
+    for s in [x for x in streams if x["k"] > last and (limit is None or x["k"] <= limit)]:
+        out.append(_stream_ev(s, ref))
+    # the marker events carry the iteration they finish: the iteration of the last stream before them
+    cur = -1
+    for o in out:
+        if o["ev"] == "stream":
+            cur = o["it"]
+        else:
+            o["it"] = cur
+    return out
+
+
+def _stream_ev(s, ref):
+    return dict(ev="stream", it=s["it"], state="S0" if s["entropy"] == ref["entropy"] and s["key"][:-1] == ref["key"][:-1] else "X",
+                idx=s["key"][-1] - ref["key"][-1], proc="")
+
+
+def stream_runs(ctx, base, q, rng):
+    """random streams across a resume: model (ClVIStreams.tla), the two plausible mistakes refuted, real killed-and-resumed runs validated"""
+    combos = [("1100", "1111"), ("1111", "0011")] if q else [("1100", "1111"), ("1111", "0011"), ("1001", "0101"), ("1000", "1010")]
+    for fresh, sched in combos + [("1011", "0111"), ("1010", "0000")]:
+        ctx.tlc("ClVIStreams", SCFG % (fresh, sched, "always", "from0", "TRUE", 2) + "SPECIFICATION Spec\nINVARIANT StreamsConsistent\nCHECK_DEADLOCK FALSE\n",
+                label="streams, fresh %s schedule %s" % (fresh, sched))
+    for rule, lr, cr, fresh, sched in (("state restored only after a sampled iteration", "sampled", "from0", "1111", "0011"),
+                                       ("duplication chain built from the resumed iteration only", "always", "initial", "1100", "1111")):
+        r = ctx.tlc("ClVIStreams", SCFG % (fresh, sched, lr, cr, "TRUE", 2) + "SPECIFICATION Spec\nINVARIANT StreamsConsistent\nCHECK_DEADLOCK FALSE\n", label="mistake: " + rule, expect_ok=False)
+        if r.violated != "StreamsConsistent":
+            raise tlcmod.MachineryError("the model does not refute: " + rule)
+    for inv in ("NeverResumesInOtherState", "NeverReuses"):
+        r = ctx.tlc("ClVIStreams", SCFG % ("1100", "1111", "always", "from0", "TRUE", 2) + "SPECIFICATION Spec\nINVARIANT %s\nCHECK_DEADLOCK FALSE\n" % inv, label="witness " + inv, expect_ok=False)
+        if r.violated != inv:
+            raise tlcmod.MachineryError("vacuity witness %s not refuted" % inv)
+    for fresh, sched in combos:
+        for strat in (("all", "latest") if not q else ("all",)):
+            env = dict(CF_STRATEGY=strat, CF_SCHED=sched, CF_FRESH=fresh, CF_PLOTS="0", CF_TOTAL="4")
+            groot = os.path.join(base, "sgold-%s-%s-%s" % (strat, fresh, sched))
+            os.makedirs(groot)
+            rc, gold, err, gev = crashfs.run_child(CHILD, groot, "record", extra_env=env)
+            gstreams = _read_streams(groot)
+            shutil.rmtree(groot, ignore_errors=True)
+            if gold is None or len(gstreams) != 4:
+                raise tlcmod.MachineryError("uninterrupted run failed (%s, %s, %s): %s" % (strat, fresh, sched, err[-600:]))
+            ref = gstreams[0]
+            markers = [e["k"] for e in gev if e["ev"] == "replace" and cls_of(e["path"]) == "marker"]
+            pts = [(k, "after") for k in markers[:-1]] + [(k, "before") for k in markers[1:3]]
+            rest = [p for p in crashfs.crash_points(gev) if p[0] > markers[0] and p not in pts]
+            pts += rng.sample(rest, min(3 if q else 12, len(rest)))
+            traces = [_merge(gstreams, gev, ref) + [dict(ev="done", it=-1, state="", idx=-1, proc="")]]
+            meta = ["golden"]
+
+            def one(pt):
+                k, v = pt
+                root = os.path.join(base, "s-%s-%s-%s-%d-%s" % (strat, fresh, sched, k, v))
+                os.makedirs(root, exist_ok=True)
+                try:
+                    e2 = dict(env, CF_OTHERSTATE="1")
+                    rc, res, err, ev = crashfs.run_child(CHILD, root, "kill", k, v, extra_env=e2)
+                    s1 = [x for x in _read_streams(root) if x["resume"] == 0]
+                    lim = k if v == "after" else k - 1
+                    t = _merge(s1, [e for e in ev if e["k"] <= lim], ref, limit=k)
+                    rc, res, err, ev2 = crashfs.run_child(CHILD, root, "record", resume=True, extra_env=e2)
+                    s2 = [x for x in _read_streams(root) if x["resume"] == 1]
+                    t += [dict(ev="crash", it=-1, state="", idx=-1, proc=""), dict(ev="restart", it=-1, state="", idx=-1, proc="X")] + _merge(s2, ev2, ref)
+                    if res is not None:
+                        t.append(dict(ev="done", it=-1, state="", idx=-1, proc=""))
+                    return t, ("ok" if res == gold else ("resume-fails" if res is None else "different-result")), (err.strip().splitlines()[-1][:160] if res is None and err.strip() else "")
+                finally:
+                    shutil.rmtree(root, ignore_errors=True)
+            with ThreadPoolExecutor(15) as ex:
+                results = list(ex.map(one, pts))
+            for (k, v), (t, outcome, info) in zip(pts, results):
+                ctx.case(("streams", strat, fresh, sched, k, v))
+                traces.append(t)
+                meta.append("kill %s event %d" % (v, k))
+                if outcome != "ok":
+                    e = gev[k]
+                    ctx.violation(dict(kind=outcome, strategy=strat, file=cls_of(e["path"]), streams=True),
+                                  "strategy %s schedule %s fresh %s, restarted process in another random state: kill %s event %d (%s %s): %s %s" % (
+                                      strat, sched, fresh, v, k, e["ev"], e["path"], outcome, info),
+                                  replay=dict(env=dict(env, CF_OTHERSTATE="1"), k=k, variant=v))
+            tv = tracemod.validate(ctx, "ClVIStreamsTrace", traces, cfg=SCFG % (fresh, sched, "always", "from0", "TRUE", 3) + "SPECIFICATION TSpec\nCONSTRAINT Progress\nPOSTCONDITION Report\nINVARIANT StreamsConsistent\n",
+                                   label="%d stream histories %s/%s/%s" % (len(traces), strat, fresh, sched))
+            for tid, l, clause in tv.propfail:
+                ctx.violation(dict(kind="stream", strategy=strat), "strategy %s schedule %s fresh %s, %s: event %d %r: %s" % (strat, sched, fresh, meta[tid], l, traces[tid][l - 1], clause),
+                              replay=dict(trace=traces[tid]))
+            pf = {t for t, _, _ in tv.propfail}
+            for tid in tv.rejected:
+                if tid not in pf:
+                    ctx.add_drift("streams %s/%s/%s %s: event %d does not follow the model: %r" % (strat, fresh, sched, meta[tid], tv.maxl[tid] + 1, traces[tid][tv.maxl[tid]]))
+            ctx.notes.setdefault("stream_histories", []).append(dict(strategy=strat, fresh=fresh, schedule=sched, points=len(pts), accepted=tv.accepted))
+    ctx.assume("in the stream runs the restarted process has pushed another seed before calling optimize_kl; kill points before the first marker are "
+               "left out there (nothing is resumed: the restart is a run from scratch in the other state)")
 
 
 def run(ctx):
@@ -149,6 +266,7 @@ def run(ctx):
                         strat, sched, meta[tid][0], tv.maxl[tid] + 1, traces[tid][tv.maxl[tid]]))
             ctx.notes.setdefault("crash_points", []).append(dict(strategy=strat, schedule=sched, events=len(gev), points=len(pts),
                                                                  failing=sum(1 for r in results if r[0] != "ok"), histories_accepted=tv.accepted))
+        stream_runs(ctx, base, q, rng)
     finally:
         shutil.rmtree(base, ignore_errors=True)
     ctx.assume("crash = SIGKILL of the process at a Python-level file-system effect (before / after / torn write); fsync / power-loss durability is outside the model",
